@@ -197,7 +197,28 @@ func (e *Env) Exec(line string) string {
 	case "reset":
 		return "ok" // handled by the caller (fresh Env)
 	case "world":
-		return "ok" // a note to the monitors about how the external chains behave in this history
+		if len(w) > 1 && strings.HasPrefix(w[1], "x:") && e.inited && !e.dead {
+			e.evmExec(w[1])
+			return "ok"
+		}
+		if len(w) > 1 && strings.HasPrefix(w[1], "dryrun:tokens:") && e.inited && !e.dead {
+			// the real proposal handler on a doubly nested cache context that is never written back
+			c1, _ := e.ctx.CacheContext()
+			c2, _ := c1.CacheContext()
+			comm, _ := new(big.Int).SetString(strings.TrimPrefix(w[1], "dryrun:tokens:"), 10)
+			infos := e.k.GetTokenInfos(c2)
+			var l []*types.TokenInfo
+			for _, t := range infos.TokenInfos {
+				n := *t
+				n.Commission = sdk.NewDecFromBigIntWithPrec(comm, 18)
+				l = append(l, &n)
+			}
+			func() {
+				defer func() { recover() }()
+				_ = mhub2.NewProposalsHandler(e.k)(c2, &types.TokenInfosChangeProposal{NewInfos: &types.TokenInfos{TokenInfos: l}})
+			}()
+		}
+		return "ok" // otherwise: a note to the monitors about how the external chains behave in this history
 	case "init":
 		e.Init()
 		return "ok"
@@ -466,6 +487,32 @@ func (e *Env) Exec(line string) string {
 				}
 			}
 			return hex.EncodeToString(b.GetCheckpoint([]byte(w[1])))
+		})
+	case "ckpt_call":
+		// ckpt_call gid amounts tokens feeAmounts feeTokens address payloadhex timeout scopehex nonce
+		return e.pure(func() string {
+			toks := func(amts, ids string) []types.ExternalToken {
+				var l []types.ExternalToken
+				if amts == "-" {
+					return l
+				}
+				as, is := strings.Split(amts, ","), strings.Split(ids, ",")
+				for i := range as {
+					a, _ := new(big.Int).SetString(as[i], 10)
+					l = append(l, types.ExternalToken{ExternalTokenId: is[i], Amount: sdk.NewIntFromBigInt(a)})
+				}
+				return l
+			}
+			hx := func(s string) []byte {
+				if s == "-" {
+					return nil
+				}
+				b, _ := hex.DecodeString(s)
+				return b
+			}
+			c := types.ContractCallTx{Tokens: toks(w[2], w[3]), Fees: toks(w[4], w[5]), Address: w[6], Payload: hx(w[7]),
+				Timeout: u(w[8]), InvalidationScope: hx(w[9]), InvalidationNonce: u(w[10])}
+			return hex.EncodeToString(c.GetCheckpoint([]byte(w[1])))
 		})
 	case "ethmsg":
 		return e.pure(func() string {
@@ -824,11 +871,9 @@ func (e *Env) exportImport() {
 		return false
 	})
 	ne := NewEnv(e.useRealOracle)
-	ne.staking = e.staking
-	ne.k = ne.k.SetStakingKeeper(e.staking)
-	ne.k.StakingKeeper = e.staking
-	ne.msg = keeper.NewMsgServerImpl(ne.k)
-	ne.ok.StakingKeeper = e.staking
+	// the validator set is an input of the environment: copy it INTO the staking object every keeper of the new
+	// instance (and the oracle's attestation handler, which holds its own keeper copy) already points to
+	*ne.staking = *e.staking
 	ne.oracle.prices, ne.oracle.holders = e.oracle.prices, e.oracle.holders
 	ne.height, ne.unixTime = e.height, e.unixTime
 	ne.rootCtx = ne.rootCtx.WithBlockHeader(ctx.BlockHeader())
